@@ -759,11 +759,46 @@ func (x *Exec) eval(e ast.Expr, st *State) (Value, types.Type) {
 	case *ast.TypeAssertExpr:
 		v, _ := x.eval(e.X, st)
 		t := x.typeOf(e)
+		if t == nil && x.contract {
+			// contract expressions are not type-checked: resolve T of x.(T) by name
+			if t = x.contractType(e.Type); t == nil {
+				engineFail("type %s of a type assertion in a contract cannot be resolved", types.ExprString(e.Type))
+			}
+		}
 		r := x.uf("assert_"+sanitize(types.TypeString(t, nil)), x.sortOf(t), asTerm(v))
 		return r, t
 	}
 	engineFail("unsupported expression %T: %s", e, types.ExprString(e))
 	return nil, nil
+}
+
+// contractType resolves a type expression written in a contract (T, pkg.T, *T, *pkg.T).
+func (x *Exec) contractType(te ast.Expr) types.Type {
+	switch te := te.(type) {
+	case *ast.ParenExpr:
+		return x.contractType(te.X)
+	case *ast.StarExpr:
+		if b := x.contractType(te.X); b != nil {
+			return types.NewPointer(b)
+		}
+	case *ast.Ident:
+		if _, o := x.pkg.Types.Scope().LookupParent(te.Name, token.NoPos); o != nil {
+			if tn, ok := o.(*types.TypeName); ok {
+				return tn.Type()
+			}
+		}
+	case *ast.SelectorExpr:
+		if id, ok := te.X.(*ast.Ident); ok {
+			for _, imp := range x.pkg.Types.Imports() {
+				if imp.Name() == id.Name {
+					if tn, ok := imp.Scope().Lookup(te.Sel.Name).(*types.TypeName); ok {
+						return tn.Type()
+					}
+				}
+			}
+		}
+	}
+	return nil
 }
 
 func (x *Exec) evalLit(e *ast.BasicLit) (Value, types.Type) {
@@ -1071,6 +1106,14 @@ func (x *Exec) evalUnary(e *ast.UnaryExpr, st *State) (Value, types.Type) {
 		a := asTerm(v)
 		if a.Sort.isBV() {
 			return Term{"(bvneg " + a.S + ")", a.Sort}, t
+		}
+		if isFloatType(t) {
+			// a float is a handle: its negation is reflect's / the machine's own (sign flip: -(+0) is -0,
+			// which 0 - x is not)
+			return x.uf("fneg", SInt, a), t
+		}
+		if isComplexType(t) {
+			return x.uf("cneg", SInt, a), t
 		}
 		return x.wrap(Term{"(- " + a.S + ")", SInt}, t), t
 	case token.ADD:
